@@ -7,7 +7,8 @@
    request reaches; [inv] = the reachable-state invariant (holds initially, preserved by every step). *)
 From Coq Require Import List NArith Bool.
 From GVL Require Import NList.
-From GV_serversm Require Import Model Proofs Timeouts.
+From GVG Require Import Kern.
+From GV_serversm Require Import Model Proofs Timeouts Bridge.
 Import ListNotations.
 Open Scope N_scope.
 
@@ -158,6 +159,35 @@ Theorem C02_serversm_deadline_bound : forall cf s lp lr,
   deadline cf s <= N.max lr lp + timeout_of cf.
 Proof. exact deadline_bound. Qed.
 Print Assumptions C02_serversm_deadline_bound.
+
+(* ---- BRIDGE (tools/go2coq) ----
+   Integer kernels TRANSLATED from the Go source on this run are the formulas of the model: chan_in_use IS
+   "some set-up media satisfies the translated test of isChannelPairInUse"; the SETUP test on interleaved=a-b is the
+   translated (a + 1) != b; the advertised session timeout is max of the two translated arguments
+   int(IdleTimeout/time.Second)-5 and 1 (the builtin max itself is not translated); the RECORD branch of the check
+   timer is the translated comparison now.Sub(lastPacket) >= ReadTimeout; the floor of the client's keep-alive period
+   is the translated 1*time.Second.  [chanN x] = x < 2^63-1 (channel numbers are Go ints). *)
+Theorem C02_serversm_kernels_are_the_code :
+  (forall ch ms, chanN ch -> Forall (fun m => chanN (mchan m)) ms ->
+     chan_in_use ch ms = existsb (fun m => k_ssm_chan_in_use (Z.of_N (mchan m)) (Z.of_N ch)) ms) /\
+  (forall a b, chanN a -> k_ssm_il_not_consec (Z.of_N a) (Z.of_N b) = negb (a + 1 =? b)) /\
+  (forall idle, idle < 9223372036854775808 ->
+     exists x, k_ssm_adv_timeout (Z.of_N idle) (Z.of_N sec) = Some x /\ Z.max x k_ssm_adv_floor = Z.of_N (advertised idle)) /\
+  (forall cf s now, t_record cf = true -> 0 < t_read cf ->
+     expire_now cf s now = k_ssm_rec_expired (Z.of_N now - Z.of_N (lastpkt_s s * sec)) (Z.of_N (t_read cf))) /\
+  (forall adv, keepalive adv = N.max (adv * sec - 5 * sec) (Z.to_N (k_ssm_keepalive_floor (Z.of_N sec)))).
+Proof. exact serversm_kernels_are_the_code. Qed.
+Print Assumptions C02_serversm_kernels_are_the_code.
+
+(* the translated kernels compute: channel 2 is in use by a media on 2-3 and by one on 1-2 or 3-4, not by one on 4-5;
+   60 s idle -> 55, 5 s idle -> 0 (the floor 1 wins), 3 s -> -2; a zero time.Second would be a division panic *)
+Example C02_example_kernels :
+  k_ssm_chan_in_use 2 2 = true /\ k_ssm_chan_in_use 1 2 = true /\ k_ssm_chan_in_use 3 2 = true /\ k_ssm_chan_in_use 4 2 = false /\
+  k_ssm_il_not_consec 4 5 = false /\ k_ssm_il_not_consec 4 6 = true /\
+  k_ssm_adv_timeout 60000000000 1000000000 = Some 55%Z /\ k_ssm_adv_timeout 5999999999 1000000000 = Some 0%Z /\
+  k_ssm_adv_timeout 3000000000 1000000000 = Some (-2)%Z /\ k_ssm_adv_timeout 1 0 = None /\ k_ssm_adv_floor = 1%Z /\
+  k_ssm_rec_expired 10000000000 10000000000 = true /\ k_ssm_rec_expired 9999999999 10000000000 = false.
+Proof. vm_compute. repeat split. Qed.
 
 (* ---- non-vacuity ---- *)
 (* SETUP(UDP) ; PLAY ; RECORD(illegal) ; OPTIONS on the closed connection: statuses 200 200 400 none,
